@@ -847,7 +847,7 @@ pub fn run(run: &Run) {
     );
     prop_search(
         run,
-        Search { check: "termination", cases: run.tier.pick(1200, 10000), workers: 8, max_shrink_iters: 40 },
+        Search { check: "termination", cases: run.tier.pick(1200, 40000), workers: 8, max_shrink_iters: 40 },
         case_strategy,
         |c| judge(|| exec(c), true, "C09:hang"),
         |c| serde_json::to_value(c).unwrap(),
